@@ -97,6 +97,25 @@ fn p_unknown_present_delegates() {
     kani::cover!(ok, "accepts");
     kani::cover!(!ok, "rejects");
 }
+#[kani::proof]
+#[kani::stub(abi_stable::abi_stability::check_layout_compatibility, stub_checker)]
+fn p_unknown_check_generic_delegates() {
+    // VerifyLayout::check::<T>(found): T's own description is the EXPECTED side, the argument the
+    // FOUND side (the checker is not symmetric: the expected side may be the more permissive one)
+    let f = fake_layout(8);
+    let ok: bool = kani::any();
+    unsafe { CHECKER_OK = ok };
+    let v = VerifyLayout::check::<u64>(Some(f));
+    unsafe {
+        assert!(CHECKER_CALLS == 1, "C20 check::<T>: the checker is consulted exactly once");
+        assert!(CHECKER_ARGS == (<u64 as abi_stable::StableAbi>::LAYOUT as *const _ as usize, f as *const _ as usize), "C20 check::<T> passes (T's description, found description) in that order");
+    }
+    assert!((v == VerifyLayout::Valid) == ok && (v == VerifyLayout::Invalid) == !ok, "C20 check::<T>: Valid exactly when the checker accepts");
+    assert!(VerifyLayout::check::<u64>(None) == VerifyLayout::Unknown, "C20 check::<T>(None) is Unknown");
+    unsafe { assert!(CHECKER_CALLS == 1, "C20 and does not consult the checker") };
+    kani::cover!(ok, "accepts");
+    kani::cover!(!ok, "rejects");
+}
 //@ prefix=canary kind=canary clause=vacuity canary
 #[kani::proof]
 fn canary_c20() {
